@@ -121,6 +121,26 @@ theorem replay_append {S : Type} (k : S) (a b : List S) : replay k (a ++ b) = re
   simp [replay, List.foldl_append]
 
 
+/-! ### callbacks -/
+
+theorem runCallbacks_of_caught (caught : CbOutcome → Bool) (h : ∀ oc, caught oc = true) (cbs : List CbOutcome) :
+    runCallbacks caught cbs = true := by
+  induction cbs with
+  | nil => rfl
+  | cons oc rest ih => simp [runCallbacks, h oc, ih]
+
+/-- when the `except` clause catches every outcome, callbacks do not influence entry and message -/
+theorem announceC_eq (o : Oracle V E) (caught : CbOutcome → Bool) (h : ∀ oc, caught oc = true) (e : Entry V E)
+    (now : Int) (r : VE V E) (cbs : List CbOutcome) : announceC o caught e now r cbs = announceR o e now r := by
+  unfold announceC announceR
+  simp [runCallbacks_of_caught caught h cbs]
+
+theorem runC_eq (o : Oracle V E) (caught : CbOutcome → Bool) (h : ∀ oc, caught oc = true) (e : Entry V E)
+    (xs : List (CEv V E)) : runC o caught e xs = runR o e (xs.map CEv.plain) := by
+  induction xs generalizing e with
+  | nil => rfl
+  | cons x xs ih => simp [runC, runR, announceC_eq o caught h, ih, CEv.plain]
+
 /-- replaying the messages of a run gives the final entry's value-or-error -/
 theorem replay_runR (o : Oracle V E) (ex : V → X) (h : ExportExact o ex) (e : Entry V E) (xs : List (REv V E)) :
     replay (e.ve.map ex) ((runR o e xs).msgs.map (fun m => m.ve.map ex)) = (runR o e xs).entry.ve.map ex := by
